@@ -10,7 +10,9 @@ import (
 	"go/ast"
 	"go/printer"
 	"go/token"
+	"os"
 	"path/filepath"
+	"sort"
 	"strings"
 
 	"verifharness/extract/ex"
@@ -84,6 +86,40 @@ func run(repo string) (string, error) {
 			return true
 		})
 	}
+	// Round 5: the two loops that call readFrom / writeTo, printed in full like the functions themselves
+	for _, name := range []string{"readPipe", "sendPipe"} {
+		fd := ex.FuncDecl(f, "client", name)
+		if fd == nil {
+			return "", fmt.Errorf("method client.%s not found in p2p/client.go", name)
+		}
+		s += fmt.Sprintf("def %s : List String := [\n", name)
+		ls := analyse(fset, fd)
+		for i, l := range ls {
+			sep := ","
+			if i == len(ls)-1 {
+				sep = ""
+			}
+			s += "  " + ex.LeanStr(l) + sep + "\n"
+		}
+		s += "]\n"
+	}
+	// every call site, in the non-test files of package p2p that a default build compiles (the verif hook
+	// files zz_verif*.go are add-only wrappers), of the functions that decide who reads / writes a
+	// connection and whether a deadline can make a Write fail and later succeed:
+	// "file:enclosing function:callee" (a call inside a `go func(){…}()` literal is marked "go:")
+	sites, err := callSites(filepath.Join(repo, "p2p"))
+	if err != nil {
+		return "", err
+	}
+	s += "def callSites : List String := [\n"
+	for i, l := range sites {
+		sep := ","
+		if i == len(sites)-1 {
+			sep = ""
+		}
+		s += "  " + ex.LeanStr(l) + sep + "\n"
+	}
+	s += "]\n"
 	s += "def packageLevelVarsUsed : List String := ["
 	for i, u := range used {
 		if i > 0 {
@@ -93,4 +129,65 @@ func run(repo string) (string, error) {
 	}
 	s += "]\nend Dos.Gen.P2PFraming\n"
 	return s, nil
+}
+
+var watched = map[string]bool{
+	"readFrom": true, "writeTo": true, "readPipe": true, "sendPipe": true, "run": true, "runClient": true,
+	"handShake": true, "sendID": true, "receiveID": true,
+	"SetDeadline": true, "SetWriteDeadline": true, "SetReadDeadline": true,
+}
+
+func callSites(dir string) ([]string, error) {
+	ents, err := os.ReadDir(dir)
+	if err != nil {
+		return nil, err
+	}
+	var out []string
+	for _, e := range ents {
+		n := e.Name()
+		if e.IsDir() || !strings.HasSuffix(n, ".go") || strings.HasSuffix(n, "_test.go") || strings.HasPrefix(n, "zz_verif") {
+			continue
+		}
+		_, f, err := ex.Parse(filepath.Join(dir, n))
+		if err != nil {
+			return nil, err
+		}
+		for _, d := range f.Decls {
+			fd, ok := d.(*ast.FuncDecl)
+			if !ok || fd.Body == nil {
+				continue
+			}
+			var walk func(node ast.Node, inGo bool)
+			walk = func(node ast.Node, inGo bool) {
+				ast.Inspect(node, func(x ast.Node) bool {
+					switch v := x.(type) {
+					case *ast.GoStmt:
+						if node != x {
+							walk(v.Call, true)
+							return false
+						}
+					case *ast.CallExpr:
+						name := ""
+						switch fn := v.Fun.(type) {
+						case *ast.Ident:
+							name = fn.Name
+						case *ast.SelectorExpr:
+							name = fn.Sel.Name
+						}
+						if watched[name] {
+							tag := ""
+							if inGo {
+								tag = "go:"
+							}
+							out = append(out, fmt.Sprintf("%s:%s:%s%s", n, fd.Name.Name, tag, name))
+						}
+					}
+					return true
+				})
+			}
+			walk(fd.Body, false)
+		}
+	}
+	sort.Strings(out)
+	return out, nil
 }
